@@ -220,12 +220,24 @@ class BundledPlayer:
         outer = self
 
         class RecClient(client_mod.Client):
-            def connect_socket(self):
-                if outer.pre_connect is not None:
-                    outer.pre_connect()
-                super().connect_socket()
-                if outer.post_connect is not None:
-                    outer.post_connect()
+            def __enter__(self):
+                r = super().__enter__()
+                # the hooks sit on the socket object itself: Client._connect reaches
+                # SocketInterface.connect_socket through super(), so an overriding method on this
+                # subclass would never be called
+                sock = self._socket
+                real_connect = sock.connect
+
+                def connect(addr):
+                    if outer.pre_connect is not None:
+                        outer.pre_connect()
+                    try:
+                        real_connect(addr)
+                    finally:
+                        if outer.post_connect is not None:
+                            outer.post_connect()
+                sock.connect = connect
+                return r
 
             def _connect(self):
                 try:
